@@ -4,7 +4,7 @@ import vlib
 from gen import jsongen as G
 from props import srvmsg_common as S
 
-TRANSLATORS = ["error_codes", "sniff", "limits_wiring"]
+TRANSLATORS = ["error_codes", "sniff"]
 MODELS = ["server"]
 BINS = {"release": ["srvmsg"]}
 RULE = ("cases = (transport, batch config, JSON array bytes) delivered as ONE message to a real jsonrpsee server (HTTP socket-free "
@@ -18,7 +18,7 @@ RULE = ("cases = (transport, batch config, JSON array bytes) delivered as ONE me
         "every distinct call entry is also sent alone (entry == single reply).  distinct non-trivial = distinct result lines other "
         "than the fixed gate answers (-32005 / -32010 / -32600 / -32700 with id null)")
 TRUSTED = [
-    "translators error_codes, sniff, limits_wiring (regex readers of the Rust sources), exercised by the differential run",
+    "translators error_codes, sniff (regex readers of the Rust sources), exercised by the differential run; Model/RespSize.v (C08) also imports Gen/LimitsWiringGen.v, none of whose definitions is used here",
     "modelled, not verified: serde_json's Vec<&RawValue> reader and the derive semantics of the request structs (Json/*.v, Model/Wire.v, "
     "Model/Server.v), tokio scheduling, soketto framing; tied by the differential run only",
     "the batch builder is C08's model (Model/RespSize.v); error message texts are transcribed by hand and compared byte for byte",
@@ -86,13 +86,13 @@ def gen_cases(ctx):
         keep = [b for b in batches if b[0].count(b"jsonrpc") <= 1 or rng.random() < 0.8]
         batches = keep
     # all permutations of 5-entry batches
-    for _ in range(ctx.scale(8, 60)):
+    for _ in range(ctx.scale(8, 150)):
         kinds = [rng.choice(list(KINDS)) for _ in range(5)]
         es = [KINDS[kd](rng, fresh_id(rng, k)) for k, kd in enumerate(kinds)]
         for perm in itertools.permutations(es):
             batches.append((b"[" + b",".join(perm) + b"]", "permutations-5"))
     # random longer ones
-    for _ in range(ctx.scale(1500, 12000)):
+    for _ in range(ctx.scale(1500, 40000)):
         n = rng.choice([1, 2, 2, 3, 3, 4, 4, 5, 6, 8, 13, 20, 39, 40, 41])
         batches.append((build(rng, [rng.choice(list(KINDS)) for _ in range(n)], wsp=rng.choice([0, 0, 0.3])), "random"))
     # notification-only and mostly-notification batches
@@ -110,7 +110,7 @@ def gen_cases(ctx):
     for _ in range(ctx.scale(150, 3000)):
         batches.append((G.mutate_bytes(rng, build(rng, [rng.choice(list(KINDS)) for _ in range(rng.choice([1, 2, 3]))])), "byte-mutated"))
 
-    n_ws = ctx.scale(3000, 40000)
+    n_ws = ctx.scale(3000, 100000)
     ws_idx = set(rng.sample(range(len(batches)), min(n_ws, len(batches))))
     for k, (m, tag) in enumerate(batches):
         cfgs = CFGS if (tag == "malformed" or rng.random() < 0.08) else [rng.choice(["u"] * 9 + ["l40"] * 3 + ["l5", "l5", "l3", "l3", "l2", "l1", "l0", "d", "d"])]
@@ -190,15 +190,9 @@ def oracle_batch(ctx, transport, cfg, msg, o, tag, want_single):
         if transport == "http" and (o["status"] != "200" or o["frames"] not in ([], [b"null"])):
             fail("http-notification-ack", {"status": o["status"], "body": [f.decode("latin1") for f in o["frames"]]})
         return "all-notifications", None
-    if len(reps) != 1:
-        if in_sub_class and len(reps) > 1:
-            ctx.fail("oracle", "ws-batch-entry-calls-subscription-method", case,
-                     {"frames": [r.decode("latin1") for r in reps], "why": "a response to a batch entry was delivered outside the array"})
-        elif not reps:
-            fail("batch-not-answered", "no reply")
-            return "answered", None
-        else:
-            fail("batch-frames-outside-array", [r.decode("latin1") for r in reps])
+    if not reps:
+        fail("batch-not-answered", "no reply")
+        return "answered", None
     arr = reps[-1]
     els = S.array_spans(arr)
     if els is None:
@@ -207,6 +201,16 @@ def oracle_batch(ctx, transport, cfg, msg, o, tag, want_single):
     if len(els) != len(answered):
         fail("batch-array-shape", {"entries_to_answer": len(answered), "responses": len(els), "reply": arr.decode("latin1")[:600]})
         return "answered", None
+    if len(reps) != 1:
+        # the known class, exactly: over WebSocket, the frames outside the array are the responses of the entries that
+        # are valid calls to a subscription method (each also present in the array), in entry order -- anything else
+        # outside the array is a different failure
+        sub_els = [el for (k, e), el in zip(answered, els) if e[0] == "call" and S.REG.get(e[2]) == "sub"]
+        if in_sub_class and reps[:-1] == sub_els:
+            ctx.fail("oracle", "ws-batch-entry-calls-subscription-method", case,
+                     {"frames": [r.decode("latin1") for r in reps], "why": "a response to a batch entry was delivered outside the array"})
+        else:
+            fail("batch-frames-outside-array", [r.decode("latin1") for r in reps])
     for (k, e), el in zip(answered, els):
         if e[0] == "call":
             why = S.reply_matches(el, e[1], S.expected_call_reply(transport, e[2], e[3]))
